@@ -402,8 +402,13 @@ def oracle_fails(pid, op, orc, op_core=None):
             out.append("indep=" + orc["indep"])
     elif pid == "C03":
         v = bad("rb")
-        if v and re.search(r"consumed|accept|fields|script-bytes|count|all_empty|reserialize|length-arith|accessors", v):
+        if v and re.search(r"consumed|accept|fields|script-bytes|count|all_empty|reserialize|length-arith|accessors|iterator-item|iterator-short", v):
             out.append("rb=" + v)
+        # neither accepting nor rejecting: a panic on this input
+        if op_core is not None and op_core.startswith("visit r=panic"):
+            out.append("implementation-panics-instead-of-accepting-or-rejecting")
+        if bad("big") and re.search(r"consumed|partition", orc["big"]):
+            out.append("big=" + orc["big"])
     elif pid == "C04":
         v = bad("rb")
         if v and "traversal" in v:
